@@ -44,7 +44,7 @@ class Modality:
         if not isinstance(other, Modality):
             return False
 
-        return np.all(self.confusion_matrix == other.confusion_matrix)
+        return np.array_equal(self.confusion_matrix, other.confusion_matrix)
 
     def __repr__(self) -> str:
         """Return a string representation of the modality."""
